@@ -88,3 +88,8 @@ register("C13", ["c13"],
          "Byte-exact delivery over every fragmentation/pending pattern is a composition of poll state machines over time and is NOT decided; tamper evidence is the AEAD inside snow. Decided structural necessary conditions: the framing constants agree (65535 / 16 / 2) and size the buffers; reader and writer agree on the frame format as terms (little-endian u16 prefix of the ciphertext length, completeness test len >= 2+n, decrypt [2..2+n], consume 2+n, compact, expose m bytes; encrypt into capacity[2..], prefix, extend 2+n, clear payload) and every step lies on every path after the cryptographic call's success (post-dominance); the frame buffer is reused only after a completed flush and flush/shutdown go payload -> frame -> inner; errors, zero-byte writes and EOF surface; and the small Buffer type matches its reference transformer method by method.",
          ["snow encrypts/decrypts and authenticates frames as specified (Noise NN, ChaChaPoly)", "AsyncRead/AsyncWrite contracts of the inner stream"],
          TRUSTED)
+
+register("C19", ["c19", "c08"],
+         "Freedom from lost wake-ups and double hand-over under all interleavings is a concurrent-protocol property that needs a model checker and is NOT decided. Decided structural mechanisms: a request is taken for a peer only after the completed wait for that peer's announced state to contain the lowest pending number, and exactly that number is removed, atomically inside one watch closure, from the state pushed on that very connection; the acceptor returns only an entry it removed itself; the requester's retry table (done -> return, completion dropped -> re-insert, cancelled -> remove) is enumerated; completion is signalled only after the fetched block was queued (number-checked and verified, C08); the fetcher bounds each request by queued/persisted.",
+         ["tokio watch/oneshot semantics", "the peer's push_block_store_state handler stores what the peer announced"],
+         TRUSTED)
